@@ -3973,7 +3973,7 @@ PROPS["C20"] = {
     "build": c20_build, "gate": {"status", "obs", "V", "D", "A", "R"}, "oracle": c20_oracle,
     "nontrivial": lambda c, a: a.startswith("ok") and c.op.startswith("build_"),
     "rule": "abstract media playlists (header fields, 0-5 segments with key histories over 4 formats / NONE / explicit IVs, byte ranges explicit and offset-less, maps, titles, dates, a too-long segment now and then, unknown tags) realised (a) as text, (b) as builder scripts with the setter calls shuffled and interleaved with push_segment calls, (c) the same with segments(vec); builder scripts with explicit segment numbers up to 64 through both push_segment and segments; master playlists (consistent and inconsistent) as text and as MasterPlaylistBuilder scripts with shuffled setters; every setter of every builder called twice with different values against the last call alone; tag builders against the text of the same content (Unicode-blank URIs); built playlists with keyed segments followed by segments on which keys(..) was never called; non-trivial = successfully built value",
-    "explanation": "theorems: setters_commute, setter_last_wins, setter_push_commute, setters_then_pushes (any interleaving of setter calls with pushes gives the same builder), pushes_eq_segments, parser_is_builder / builder_text_agree (the parser ends in build() of exactly that builder state, so acceptance and value coincide for implicitly numbered content), build_never_panics, built_numbering (gap-free, implicit = media_sequence + position, explicit preserved), master_parser_is_builder, master_build_never_panics; tag builders: C14; oracle: same acceptance and same observation for the three realisations of each content, numbering rule on explicit numbers, serialisation of every built value re-parses to its content",
+    "explanation": "segment_number_last_wins / segment_number_none_resets / segment_number_some (MediaSegmentBuilder::number: the last call decides, None takes an explicit number back); theorems: setters_commute, setter_last_wins, setter_push_commute, setters_then_pushes (any interleaving of setter calls with pushes gives the same builder), pushes_eq_segments, parser_is_builder / builder_text_agree (the parser ends in build() of exactly that builder state, so acceptance and value coincide for implicitly numbered content), build_never_panics, built_numbering (gap-free, implicit = media_sequence + position, explicit preserved), master_parser_is_builder, master_build_never_panics; tag builders: C14; oracle: same acceptance and same observation for the three realisations of each content, numbering rule on explicit numbers, serialisation of every built value re-parses to its content",
     "assumptions": ["key histories are restricted to those the writer can express (recorded finding K3 is C03's subject)", "explicit numbers are in-domain up to 64 (a huge explicit number makes StableVec::reserve_for allocate that many slots)"],
 }
 
